@@ -328,6 +328,143 @@ theorem ilu0Factor_scale (c : K) (hc : c ≠ 0) (A : CRS K) (hA : A.WF) (hsq : A
   rw [scale_nrows', List.range_eq_range']
   simpa [scaleFactors] using this
 
+/-! ### the triangular solve and the sweep with the factors of `c·A` -/
+
+/-- `c·v` entrywise -/
+def vsmul (c : K) (v : Vec K) : Vec K := Array.ofFn (n := v.size) (fun i => c * v.getD i 0)
+
+@[simp] theorem vsmul_size (c : K) (v : Vec K) : (vsmul c v).size = v.size := by simp [vsmul]
+
+theorem getD_vsmul (c : K) (v : Vec K) (i : Nat) : (vsmul c v).getD i 0 = c * v.getD i 0 := by
+  unfold vsmul
+  rw [getD_ofFn]
+  by_cases hi : i < v.size
+  · simp [hi]
+  · rw [dif_neg hi, getD_of_size_le _ _ _ (by omega)]; ring
+
+theorem vsmul_eq_vlin (c : K) (v : Vec K) : vsmul c v = vlin c v 0 v := by
+  apply ext_getD' (0 : K) (by simp)
+  intro i
+  rw [getD_vsmul, getD_vlin _ _ _ _ rfl]; ring
+
+theorem scaleFactors_U_row (c : K) (F : IluFactors K) (i : Nat) : (scaleFactors c F).U.row i = srow c (F.U.row i) := by
+  unfold scaleFactors CRS.row
+  exact getD_map_srow c F.U.rows i
+
+theorem scaleFactors_strictUpper (c : K) (F : IluFactors K) (h : strictUpperb F.U = true) :
+    strictUpperb (scaleFactors c F).U = true := by
+  unfold strictUpperb at h ⊢
+  have hn : (scaleFactors c F).U.nrows = F.U.nrows := by simp [scaleFactors, CRS.nrows]
+  rw [hn]
+  rw [List.all_eq_true] at h ⊢
+  intro i hi
+  have := h i hi
+  rw [scaleFactors_U_row]
+  rw [List.all_eq_true] at this ⊢
+  intro cv hcv
+  unfold srow at hcv
+  obtain ⟨a, ha, rfl⟩ := List.mem_map.mp hcv
+  exact this a ha
+
+theorem scaleFactors_U_wf (c : K) (F : IluFactors K) (h : F.U.WF) : (scaleFactors c F).U.WF := by
+  intro r hr cv hcv
+  simp only [scaleFactors, Array.toList_map] at hr
+  obtain ⟨r0, hr0, rfl⟩ := List.mem_map.mp hr
+  unfold srow at hcv
+  obtain ⟨a, ha, rfl⟩ := List.mem_map.mp hcv
+  exact h r0 hr0 a ha
+
+theorem rowDot_srow (c : K) (r : Row K) (z z' : Vec K) (h : ∀ cv ∈ r, z'.getD cv.1 0 = c⁻¹ * z.getD cv.1 0)
+    (hc : c ≠ 0) : rowDot (srow c r) z' = rowDot r z := by
+  rw [rowDot_eq_listSum, rowDot_eq_listSum]
+  unfold srow
+  rw [List.map_map]
+  congr 1
+  apply List.map_congr_left
+  intro cv hcv
+  simp only [Function.comp]
+  rw [h cv hcv]; field_simp
+
+/-- **the triangular solve with the factors of `c·A` is `c⁻¹ ·` the triangular solve with the factors of `A`** -/
+theorem iluSolve_scale (c : K) (hc : c ≠ 0) (F : IluFactors K) (hU : strictUpperb F.U = true) (hUwf : F.U.WF)
+    (hn : F.U.nrows = F.L.nrows) (hcn : F.U.ncols = F.L.nrows) (b : Vec K) (hb : b.size = F.L.nrows) :
+    iluSolve (scaleFactors c F) b = vsmul c⁻¹ (iluSolve F b) := by
+  have hL : (scaleFactors c F).L = F.L := rfl
+  have hlow : (List.range (scaleFactors c F).L.nrows).foldl (lowStep (scaleFactors c F)) b
+      = (List.range F.L.nrows).foldl (lowStep F) b := rfl
+  set y := (List.range F.L.nrows).foldl (lowStep F) b with hy
+  have hys : y.size = F.L.nrows := by rw [hy, fold_size _ (lowStep_size F)]; exact hb
+  have hn' : (scaleFactors c F).U.nrows = (scaleFactors c F).L.nrows := by
+    show (scaleFactors c F).U.nrows = F.L.nrows
+    rw [← hn]; simp [scaleFactors, CRS.nrows]
+  have e1 : iluSolve (scaleFactors c F) b = (List.range F.L.nrows).reverse.foldl (upStep (scaleFactors c F)) y := by
+    rw [iluSolve_eq, hlow]; rfl
+  have e2 : iluSolve F b = (List.range F.L.nrows).reverse.foldl (upStep F) y := by rw [iluSolve_eq]
+  have s1 : ∀ i, i < F.L.nrows → (iluSolve (scaleFactors c F) b).getD i 0
+      = (scaleFactors c F).D.getD i 0 * (y.getD i 0 - rowDot ((scaleFactors c F).U.row i) (iluSolve (scaleFactors c F) b)) := by
+    rw [e1]
+    exact upPhase_spec (scaleFactors c F) (scaleFactors_strictUpper c F hU) (scaleFactors_U_wf c F hUwf) hn'
+      (by show F.U.ncols = F.L.nrows; exact hcn) y hys
+  have s2 := upPhase_spec F hU hUwf hn hcn y hys
+  rw [← e2] at s2
+  have hD : ∀ i, (scaleFactors c F).D.getD i 0 = F.D.getD i 0 * c⁻¹ := fun i => getD_map_mul c⁻¹ F.D i
+  have key : ∀ k i, F.L.nrows - k ≤ i → i < F.L.nrows →
+      (iluSolve (scaleFactors c F) b).getD i 0 = c⁻¹ * (iluSolve F b).getD i 0 := by
+    intro k
+    induction k with
+    | zero => intro i h1 h2; omega
+    | succ k ih =>
+      intro i h1 h2
+      rw [s1 i h2, s2 i h2, hD, scaleFactors_U_row]
+      have hrow := strictUpper_row hU i (by omega)
+      rw [rowDot_srow c (F.U.row i) (iluSolve F b) _ (fun cv hcv => by
+        by_cases hlt : cv.1 < F.L.nrows
+        · exact ih cv.1 (by have := hrow cv hcv; omega) hlt
+        · rw [getD_of_size_le _ _ _ (by rw [iluSolve_size, hb]; omega),
+            getD_of_size_le _ _ _ (by rw [iluSolve_size, hb]; omega)]; ring) hc]
+      ring
+  apply ext_getD' (0 : K) (by simp)
+  intro i
+  rw [getD_vsmul]
+  by_cases hi : i < F.L.nrows
+  · exact key F.L.nrows i (by omega) hi
+  · rw [getD_of_size_le _ _ _ (by rw [iluSolve_size, hb]; omega),
+      getD_of_size_le _ _ _ (by rw [iluSolve_size, hb]; omega)]; ring
+
+theorem rowDot_srow_same (c : K) (r : Row K) (x : Vec K) : rowDot (srow c r) x = c * rowDot r x := by
+  rw [rowDot_eq_listSum, rowDot_eq_listSum, ← List.sum_map_mul_left]
+  unfold srow
+  rw [List.map_map]
+  congr 1
+  apply List.map_congr_left
+  intro cv _
+  simp only [Function.comp]; ring
+
+theorem residual_scale (c : K) (A : CRS K) (f x : Vec K) :
+    residual (vsmul c f) (scale A c) x = vsmul c (residual f A x) := by
+  apply ext_getD' (0 : K) (by simp [scale_nrows'])
+  intro i
+  rw [getD_vsmul]
+  by_cases hi : i < A.nrows
+  · rw [getD_residual _ _ _ _ (by rw [scale_nrows']; exact hi), getD_residual _ _ _ _ hi, scale_row', rowDot_srow_same,
+      getD_vsmul]; ring
+  · rw [getD_of_size_le _ _ _ (by simp [scale_nrows']; omega), getD_of_size_le _ _ _ (by simp; omega)]; ring
+
+/-- **`N(cA) = c⁻¹ N(A)` for the ILU sweep**, in the form "the sweep for `(cA, c f)` from `x` is the sweep for `(A, f)`
+from `x`" (new iterate AND the scratch vector up to the factor: `tmp' = solve(f − A x)` in both) -/
+theorem iluSweep_scale (c : K) (hc : c ≠ 0) (ω : K) (F : IluFactors K) (A : CRS K) (hU : strictUpperb F.U = true)
+    (hUwf : F.U.WF) (hn : F.U.nrows = F.L.nrows) (hcn : F.U.ncols = F.L.nrows) (hA : A.nrows = F.L.nrows)
+    (f x t t' : Vec K) :
+    iluSweep ω (scaleFactors c F) (scale A c) (vsmul c f) x t = iluSweep ω F A f x t' := by
+  unfold iluSweep
+  rw [residual_scale, iluSolve_scale c hc F hU hUwf hn hcn _ (by simp [hA]), vsmul_eq_vlin c,
+    iluSolve_vlin F c 0 _ _ rfl, ← vsmul_eq_vlin]
+  have : vsmul c⁻¹ (vsmul c (iluSolve F (residual f A x))) = iluSolve F (residual f A x) := by
+    apply ext_getD' (0 : K) (by simp)
+    intro i
+    rw [getD_vsmul, getD_vsmul]; field_simp
+  rw [this]
+
 end scale
 
 end Relax
